@@ -11,6 +11,10 @@ CLANG_ARGS = ['-std=c++20', '-I' + REPO + '/include', '-I' + REPO + '/src', '-re
 MEM_KB = int(os.environ.get('IPR_CBMC_MEM_KB', str(12 * 1024 * 1024)))
 
 
+import threading
+HEAVY = threading.Semaphore(int(os.environ.get('IPR_HEAVY_JOBS', '4')))
+
+
 class Undecided(Exception):
     """machinery problem: extraction refused, must-fire failed, tool crash, timeout (exit 2, never a violation)"""
 
@@ -40,7 +44,7 @@ def ensure_cxx2c():
 
 class Unit:
     """A set of root functions of one translation unit of /repo (or of a driver TU that only instantiates templates)."""
-    def __init__(self, name, tu, roots=(), prefixes=(), mangled=(), outline=(), transparent=('std::basic_string_view', 'std::pair'), names=None, catalogue=False, transparent_fn=('std::equal_to',)):
+    def __init__(self, name, tu, roots=(), prefixes=(), mangled=(), outline=(), transparent=('std::basic_string_view', 'std::pair'), names=None, catalogue=False, transparent_fn=('std::equal_to', 'std::basic_string_view<char8_t>::basic_string_view', 'std::basic_string_view<char8_t>::empty', 'std::basic_string_view<char8_t>::data', 'std::basic_string_view<char8_t>::length', 'std::basic_string_view<char8_t>::size', 'std::pair<')):
         self.name, self.tu, self.roots, self.prefixes, self.mangled = name, tu, list(roots), list(prefixes), list(mangled)
         self.outline, self.transparent, self.names, self.catalogue = list(outline), list(transparent), dict(names or {}), catalogue
         self.c = self.json = None
@@ -86,9 +90,14 @@ class Unit:
         def sub(m):
             key = m.group(1)
             if key.startswith('virt:'):
-                return '__virt_' + self.resolve_virt(key[5:])
+                return '__virt_' + self.resolve_virt(key[5:]) + '__ext'
             if key in getattr(self, 'std', {}):
                 n = self.std[key]
+                if isinstance(n, tuple):   # (qualified name, substring of the stub's mangled name or type): robust against lambda renumbering
+                    hits = sorted(set(x['name'] for x in self.json['std_stubs'] if x['qualified'] == n[0] and all(t in x['name'] + ' ' + x.get('type', '') + ' ' + x.get('params', '') for t in n[1:])))
+                    if len(hits) != 1:
+                        raise Undecided('MUST-FIRE: std stub selector %s=%r matches %d stubs in unit %s: %s' % (key, n, len(hits), self.name, hits[:4]))
+                    return hits[0]
                 if n not in [x['name'] for x in self.json['std_stubs']]:
                     raise Undecided('MUST-FIRE: std stub %s (%s) is not called by the lowered code of unit %s' % (key, n, self.name))
                 return n
@@ -118,6 +127,8 @@ class Ob:
         self.enforce, self.replace, self.loops, self.contracts, self.flags = enforce, list(replace), loops, list(contracts), list(flags)
         self.unwind, self.timeout, self.solver, self.defines, self.bounded, self.replay = unwind, timeout, solver, list(defines), bounded, replay
         self.checks, self.objbits, self.smt = checks, objbits, smt
+        self.heavy = False
+        self.skip = []   # lowered bodies replaced by a hand-written stub in the harness (the stub must restate a proved contract)
 
 
 def parse_cbmc_json(text):
@@ -169,7 +180,7 @@ def run_ob(ob, workdir, keep=False):
         open(cpath, 'w').write(src)
         entry = u.resolve_text(ob.entry)
         gb = os.path.join(d, 'ob.gb')
-        rc, out, err, dt = sh(['goto-cc', '--function', entry, '-DIPR_CANARY'] + ['-D' + x for x in ob.defines] + [cpath, '-o', gb], timeout=300)
+        rc, out, err, dt = sh(['goto-cc', '--function', entry, '-DIPR_CANARY', '-I' + os.path.join(VERIF, 'harness')] + ['-D' + x for x in ob.defines] + ['-DIPR_SKIP_' + u.resolve_text(x) for x in ob.skip] + [cpath, '-o', gb], timeout=300)
         if rc != 0:
             raise Undecided('goto-cc failed: ' + (err + out)[-3000:])
         if re.search(r'\bwarning: ignoring\b', err):
@@ -191,7 +202,7 @@ def run_ob(ob, workdir, keep=False):
             cur = gi
         cmd = ['cbmc', cur, '--json-ui', '--trace', '--drop-unused-functions']
         if ob.checks:
-            cmd += ['--bounds-check', '--pointer-check', '--div-by-zero-check', '--pointer-overflow-check', '--signed-overflow-check', '--conversion-check']
+            cmd += ['--bounds-check', '--pointer-check', '--div-by-zero-check', '--pointer-overflow-check', '--signed-overflow-check']
         if ob.unwind is not None:
             cmd += ['--unwind', str(ob.unwind), '--unwinding-assertions']
         if ob.objbits:
@@ -202,7 +213,11 @@ def run_ob(ob, workdir, keep=False):
             cmd += ['--external-sat-solver', ob.solver]
         cmd += ob.flags
         res['cmd'] = ' '.join(cmd)
-        rc, out, err, dt = sh(cmd, timeout=ob.timeout)
+        if ob.heavy:
+            with HEAVY:
+                rc, out, err, dt = sh(cmd, timeout=ob.timeout)
+        else:
+            rc, out, err, dt = sh(cmd, timeout=ob.timeout)
         res['solver_s'] = round(dt, 2)
         if rc == -9:
             raise Undecided('cbmc timeout after %ds' % ob.timeout)
